@@ -2034,7 +2034,8 @@ Module WrapExample.
     run (wrap c2 "H") ops2 (wrap_mstate "H" 0 (s1 c2)) = image (run c2 ops2 (s1 c2)).
   Proof.
     destruct C17_wrap_hypotheses_satisfiable as (Hok & He & Hv & Hi & Hr & Hf).
-    exact (proj1 (C17_wrap_run_errfree c2 "r" "H" Hok nat nat exec0 exec0 eval0 eval0 emit0 He Hv 0 20 ops2 (s1 c2) Hi Hr Hf)).
+    unfold run in Hf. unfold run, image.
+    apply (C17_wrap_run_errfree c2 "r" "H" Hok nat nat exec0 exec0 eval0 eval0 emit0 He Hv 0%Z 20 ops2 (s1 c2) Hi Hr Hf).
   Qed.
 
   (* a run with an error in the middle: C17_wrap_run with the root active at every step *)
@@ -2046,7 +2047,8 @@ Module WrapExample.
     assert (Ha : wrap_alive c2 "r" nat nat exec0 eval0 emit0 20 ops2x (s1 c2)) by (vm_compute; tauto).
     split; [exact Ha|]. split; [vm_compute; reflexivity|].
     destruct C17_wrap_hypotheses_satisfiable as (Hok & He & Hv & Hi & Hr & Hf).
-    exact (proj1 (C17_wrap_run c2 "r" "H" Hok nat nat exec0 exec0 eval0 eval0 emit0 He Hv 0 20 ops2x (s1 c2) Hi Ha)).
+    unfold run, image.
+    apply (C17_wrap_run c2 "r" "H" Hok nat nat exec0 exec0 eval0 eval0 emit0 He Hv 0%Z 20 ops2x (s1 c2) Hi Ha).
   Qed.
 
   (* ... and the same equations checked by evaluating both runs (independent of the theorem) *)
@@ -2163,14 +2165,3 @@ Module WrapRefutations.
   Qed.
 End WrapRefutations.
 
-(* PRINT-ASSUMPTIONS *)
-Print Assumptions wrap_okb_sound.
-Print Assumptions C17_wrap_step.
-Print Assumptions C17_wrap_queue.
-Print Assumptions C17_wrap_run.
-Print Assumptions C17_wrap_run_errfree.
-Print Assumptions WrapExample.C17_wrap_hypotheses_satisfiable.
-Print Assumptions WrapExample.C17_wrap_example_by_theorem.
-Print Assumptions WrapExample.C17_wrap_example_with_error.
-Print Assumptions WrapRefutations.C17_wrap_step_final_child_refuted.
-Print Assumptions WrapRefutations.C17_wrap_run_root_active_needed.
